@@ -4110,6 +4110,7 @@ int32_t getExplicitExtensions(psPool_t *pool, const unsigned char **pp,
     psSize_t len, fullExtLen;
     psAsnOid_t asnOid;
     oid_e noid;
+    uint32_t seenExt = 0; /* EXT_CRIT_FLAG(noid) of the known extensions met */
 
 #  ifdef USE_FULL_CERT_PARSE
     psSize_t subExtLen;
@@ -4192,6 +4193,19 @@ KNOWN_EXT:
         }
         noid = psOidToEnum(asnOid);
         p += len;
+        /* RFC 5280 4.2: "A certificate MUST NOT include more than one
+           instance of a particular extension." The parsers below store
+           into single slots: a second instance would overwrite (and leak)
+           what the first one allocated. */
+        if (noid > OID_ENUM(0) && noid <= OID_ENUM(id_netscape_comment))
+        {
+            if (seenExt & EXT_CRIT_FLAG(noid))
+            {
+                psTraceCrypto("Duplicate extension\n");
+                return PS_PARSE_FAIL;
+            }
+            seenExt |= EXT_CRIT_FLAG(noid);
+        }
 /*
         Possible boolean value here for 'critical' id.  It's a failure if a
         critical extension is found that is not supported
